@@ -3,7 +3,8 @@
    First part: pure list reasoning over an abstract leaf semantics [sem] and an abstract
    invariant [P] of the intermediate circuits; second part: instance sem = transform_leaf. *)
 Require Import Cirbo.Model.Base Cirbo.Model.Gate Cirbo.Model.Circuit Cirbo.Model.Passes.
-Require Import Cirbo.Proofs.DictFacts.
+Require Import Cirbo.Model.WF.
+Require Import Cirbo.Proofs.DictFacts Cirbo.Proofs.WFSimple Cirbo.Proofs.RebuildFacts Cirbo.Proofs.EffectRR.
 
 (* ---------------- induction principle for the nested type ---------------- *)
 Section TransformerInd.
@@ -164,3 +165,108 @@ Section Generic.
     symmetry. apply apply_g_linear. eapply run_P; eassumption.
   Qed.
 End Generic.
+
+(* ---------------- the instance: sem = transform_leaf, P = "the outputs name gates" ---------------- *)
+Lemma set_outputs_outs_ok n outs c' : set_outputs n outs = Ok c' -> outs_ok c'.
+Proof.
+  intros H. apply set_outputs_inv in H. destruct H as [-> H]. intros o Ho. simpl in Ho.
+  unfold has_gate; simpl. apply H; exact Ho.
+Qed.
+
+Lemma transform_leaf_outs_ok t c c1 : transform_leaf t c = Ok c1 -> outs_ok c1.
+Proof.
+  destruct t as [a| | | |ts]; simpl; intros H.
+  - unfold remove_redundant_gates in H. binv H order Ho. binv H n1 Hn1. binv H n2 Hn2. binv H n3 Hn3.
+    eapply set_outputs_outs_ok; exact H.
+  - unfold merge_unary_operators in H. binv H order Ho. binv H m Hm. binv H emit He. binv H n1 Hn1.
+    binv H n2 Hn2. binv H outs Houts. eapply set_outputs_outs_ok; exact H.
+  - unfold merge_duplicate_gates in H. binv H emit He. binv H stt Hst. destruct stt as [n1 tbl].
+    binv H n2 Hn2. binv H outs Houts. eapply set_outputs_outs_ok; exact H.
+  - unfold merge_equivalent_gates in H. binv H groups Hg. unfold replace_equivalent_gates in H.
+    binv H emit He. binv H stt Hst. destruct stt as [n1 k]. binv H n2 Hn2. eapply set_outputs_outs_ok; exact H.
+  - discriminate.
+Qed.
+
+Lemma transform_leaf_idem t c c1 : is_leaf_idempotent t = true -> outs_ok c ->
+  transform_leaf t c = Ok c1 -> transform_leaf t c1 = Ok c1.
+Proof.
+  destruct t as [a| | | |ts]; simpl; try discriminate. intros _. apply rr_idempotent.
+Qed.
+
+Lemma apply_linear_run ts c : apply_linear ts c = run transform_leaf ts c.
+Proof. reflexivity. Qed.
+
+Lemma apply_transformers_g c ts : apply_transformers c ts = apply_g transform_leaf c ts.
+Proof. reflexivity. Qed.
+
+(* dropping repeated idempotent passes does not change the result *)
+Theorem apply_transformers_linear c ts : outs_ok c ->
+  apply_transformers c ts = apply_linear (linearize ts) c.
+Proof.
+  intros Hc. rewrite apply_transformers_g, apply_linear_run.
+  apply (apply_g_linear transform_leaf outs_ok transform_leaf_outs_ok transform_leaf_idem); exact Hc.
+Qed.
+
+Theorem apply_linear_app a b c : apply_linear (a ++ b) c = (do c1 <- apply_linear a c; apply_linear b c1).
+Proof. apply run_app. Qed.
+
+Theorem apply_transformers_app c a b : outs_ok c ->
+  apply_transformers c (a ++ b) = (do c1 <- apply_transformers c a; apply_transformers c1 b).
+Proof. apply (apply_g_app transform_leaf outs_ok transform_leaf_outs_ok transform_leaf_idem). Qed.
+
+Theorem apply_transformers_cons c t ts : outs_ok c ->
+  apply_transformers c (t :: ts) = (do c1 <- apply_transformers c [t]; apply_transformers c1 ts).
+Proof. apply (apply_g_cons transform_leaf outs_ok transform_leaf_outs_ok transform_leaf_idem). Qed.
+
+Theorem apply_transformers_comp c ts : apply_transformers c [TComp ts] = apply_transformers c ts.
+Proof. apply apply_g_comp. Qed.
+
+Theorem apply_transformers_pipe c a b : outs_ok c ->
+  apply_transformers c [pipe a b] = (do c1 <- apply_transformers c [a]; apply_transformers c1 [b]).
+Proof. apply (apply_g_pipe transform_leaf outs_ok transform_leaf_outs_ok transform_leaf_idem). Qed.
+
+Theorem transform_leaf_single t c : is_leaf t = true -> outs_ok c ->
+  transform t c = apply_linear (as_distinct t) c.
+Proof.
+  intros _ Hc. unfold transform. rewrite apply_transformers_linear by exact Hc. rewrite linearize_single. reflexivity.
+Qed.
+
+Theorem apply_transformers_outs_ok c ts c' : outs_ok c -> apply_transformers c ts = Ok c' -> outs_ok c'.
+Proof.
+  intros Hc H. rewrite apply_transformers_linear in H by exact Hc.
+  eapply (run_P transform_leaf outs_ok transform_leaf_outs_ok); eassumption.
+Qed.
+
+(* cleanup = RR ; MU ; RR ; MD ; RR ; (ME ; RR) one after another *)
+Theorem cleanup_sequence c heavy : outs_ok c ->
+  cleanup c heavy =
+  (do c1 <- remove_redundant_gates false c;
+   do c2 <- merge_unary_operators c1;
+   do c3 <- remove_redundant_gates false c2;
+   do c4 <- merge_duplicate_gates c3;
+   do c5 <- remove_redundant_gates false c4;
+   if heavy then do c6 <- merge_equivalent_gates c5; remove_redundant_gates false c6 else Ok c5).
+Proof.
+  intros Hc. unfold cleanup. rewrite apply_transformers_linear by exact Hc.
+  destruct heavy; simpl; unfold apply_linear; simpl;
+    repeat (match goal with |- context [bind ?r _] => destruct r; simpl; try reflexivity end).
+Qed.
+
+Theorem cleanup_transforms c heavy : outs_ok c ->
+  cleanup c heavy =
+  (do c1 <- transform (TRR false) c;
+   do c2 <- transform TMU c1;
+   do c3 <- transform TMD c2;
+   if heavy then transform TME c3 else Ok c3).
+Proof.
+  intros Hc. unfold cleanup, transform. simpl app.
+  rewrite (apply_transformers_cons c (TRR false) _ Hc).
+  destruct (apply_transformers c [TRR false]) as [c1|e] eqn:E1; simpl; [|reflexivity].
+  pose proof (apply_transformers_outs_ok _ _ _ Hc E1) as Hc1.
+  rewrite (apply_transformers_cons c1 TMU _ Hc1).
+  destruct (apply_transformers c1 [TMU]) as [c2|e] eqn:E2; simpl; [|reflexivity].
+  pose proof (apply_transformers_outs_ok _ _ _ Hc1 E2) as Hc2.
+  rewrite (apply_transformers_cons c2 TMD _ Hc2).
+  destruct (apply_transformers c2 [TMD]) as [c3|e] eqn:E3; simpl; [|reflexivity].
+  destruct heavy; reflexivity.
+Qed.
